@@ -20,6 +20,7 @@ const (
 
 type Piece struct {
 	S   string
+	Id  bool // identifier: may also be written between single quotes ('name', the grammar's second IDENTIFIER form)
 	Kw  bool // case-insensitive keyword / word operator
 	Gap Gap  // when S == "": a gap
 	IsG bool
@@ -27,8 +28,14 @@ type Piece struct {
 
 type Stream []Piece
 
-func T(s string) Piece                 { return Piece{S: s} }
-func K(s string) Piece                 { return Piece{S: s, Kw: true} }
+func T(s string) Piece { return Piece{S: s} }
+func K(s string) Piece { return Piece{S: s, Kw: true} }
+func I(s string) Piece { return Piece{S: s, Id: true} }
+
+// QuoteIds switches the quoted identifier spelling on for Respell (off by default: it is judged where the property
+// at hand is about spellings).
+var QuoteIds = false
+
 func G(g Gap) Piece                    { return Piece{IsG: true, Gap: g} }
 func (s Stream) Add(p ...Piece) Stream { return append(s, p...) }
 func Cat(ss ...Stream) Stream {
@@ -127,6 +134,8 @@ func (s Stream) Respell(r *core.Rand) string {
 		}
 		if p.Kw {
 			sb.WriteString(randCase(r, p.S))
+		} else if p.Id && QuoteIds && r.P(0.3) {
+			sb.WriteString("'" + p.S + "'")
 		} else {
 			sb.WriteString(p.S)
 		}
